@@ -52,6 +52,38 @@ const ALPHABET: &[R] = &[
     R { name: "not", sort: S::E, hole: S::E, pre: "not ", post: "" },
     R { name: "named_arg", sort: S::E, hole: S::E, pre: "f(k: ", post: ")" },
     R { name: "table_cell", sort: S::E, hole: S::E, pre: "table(columns: 2, a, ", post: ", b)" },
+    // every layout with a fallback: both answers of the deciding predicate
+    R { name: "table_hline_after", sort: S::E, hole: S::E, pre: "table(columns: 2, ", post: ", table.hline(), b)" },
+    R { name: "grid_cell_after", sort: S::E, hole: S::E, pre: "grid(columns: 2, ", post: ", grid.cell(b))" },
+    R { name: "table_spread_after", sort: S::E, hole: S::E, pre: "table(columns: 2, ", post: ", ..d)" },
+    R { name: "table_named_after", sort: S::E, hole: S::E, pre: "table(columns: 2, ", post: ", stroke: none)" },
+    R { name: "table_header", sort: S::E, hole: S::E, pre: "table(columns: 2, table.header(", post: "), b)" },
+    R { name: "table_no_columns", sort: S::E, hole: S::E, pre: "table(", post: ", b)" },
+    R { name: "table_comment", sort: S::E, hole: S::E, pre: "table(columns: 2, /*c*/ ", post: ", b)" },
+    R { name: "grid_content", sort: S::E, hole: S::M, pre: "grid(columns: 2, [", post: "], [b])" },
+    R { name: "chain_comment", sort: S::E, hole: S::E, pre: "a.b/*c*/.c(", post: ")" },
+    R { name: "chain_two_calls", sort: S::E, hole: S::E, pre: "a.b(x).c(", post: ")" },
+    R { name: "chain_long_idents", sort: S::E, hole: S::E, pre: "alpha_beta_gamma_delta.epsilon_zeta_eta_theta.iota_kappa_lambda(", post: ")" },
+    R { name: "chain_trailing_content", sort: S::E, hole: S::M, pre: "a.b.c(x)[", post: "]" },
+    R { name: "paren_comment", sort: S::E, hole: S::E, pre: "(/*c*/ ", post: ")" },
+    R { name: "array_comment", sort: S::E, hole: S::E, pre: "(1, // c\n  ", post: ")" },
+    R { name: "array_multiline", sort: S::E, hole: S::E, pre: "(\n  1,\n  ", post: ",\n)" },
+    R { name: "args_named_only", sort: S::E, hole: S::E, pre: "f(k: 1, l: ", post: ")" },
+    R { name: "args_spread", sort: S::E, hole: S::E, pre: "f(..", post: ")" },
+    R { name: "closure_params", sort: S::E, hole: S::E, pre: "(x, y: ", post: ") => x" },
+    R { name: "closure_block", sort: S::E, hole: S::E, pre: "x => { ", post: " }" },
+    R { name: "for_iterable", sort: S::E, hole: S::E, pre: "for p in ", post: " { p }" },
+    R { name: "for_body", sort: S::E, hole: S::E, pre: "for p in d { ", post: " }" },
+    R { name: "while_body", sort: S::E, hole: S::E, pre: "while c { ", post: " }" },
+    R { name: "show_transform", sort: S::E, hole: S::E, pre: "{ show a: ", post: " }" },
+    R { name: "set_arg", sort: S::E, hole: S::E, pre: "{ set f(k: ", post: ") }" },
+    R { name: "context", sort: S::E, hole: S::E, pre: "context ", post: "" },
+    R { name: "destructure_rhs", sort: S::E, hole: S::E, pre: "{ let (p, q) = ", post: " }" },
+    R { name: "dict_keyed", sort: S::E, hole: S::E, pre: "(\"k\": ", post: ")" },
+    R { name: "return_value", sort: S::E, hole: S::E, pre: "x => { return ", post: " }" },
+    R { name: "field_of_paren", sort: S::E, hole: S::E, pre: "(", post: ").f" },
+    R { name: "assign", sort: S::E, hole: S::E, pre: "{ v = ", post: " }" },
+    R { name: "include", sort: S::E, hole: S::E, pre: "{ include ", post: " }" },
     R { name: "equation", sort: S::E, hole: S::X, pre: "$", post: "$" },
     R { name: "let_in_block", sort: S::E, hole: S::E, pre: "{ let v = ", post: " }" },
     R { name: "hash_expr", sort: S::M, hole: S::E, pre: "#", post: "" },
@@ -67,6 +99,18 @@ const ALPHABET: &[R] = &[
     R { name: "math_frac", sort: S::X, hole: S::X, pre: "(", post: ")/2" },
     R { name: "math_hash", sort: S::X, hole: S::E, pre: "#", post: "" },
     R { name: "math_abs", sort: S::X, hole: S::X, pre: "|", post: "|" },
+    R { name: "math_sup", sort: S::X, hole: S::X, pre: "x^(", post: ")" },
+    R { name: "math_root", sort: S::X, hole: S::X, pre: "√(", post: ")" },
+    R { name: "math_call_ml", sort: S::X, hole: S::X, pre: "f(\n  ", post: "\n)" },
+    R { name: "math_call_comment", sort: S::X, hole: S::X, pre: "f(/*c*/ ", post: ")" },
+    R { name: "math_brace", sort: S::X, hole: S::X, pre: "{", post: "}" },
+    R { name: "math_named", sort: S::X, hole: S::X, pre: "f(k: ", post: ")" },
+    R { name: "heading", sort: S::M, hole: S::M, pre: "= ", post: "" },
+    R { name: "emph", sort: S::M, hole: S::M, pre: "_a ", post: "_" },
+    R { name: "ref_supplement", sort: S::M, hole: S::M, pre: "@ref[", post: "]" },
+    R { name: "content_ml", sort: S::M, hole: S::M, pre: "#[\n  ", post: "\n]" },
+    R { name: "inline_eq", sort: S::M, hole: S::X, pre: "$", post: "$" },
+    R { name: "block_eq", sort: S::M, hole: S::X, pre: "$ ", post: " $" },
 ];
 
 fn atom(s: S, variant: usize) -> &'static str {
@@ -183,7 +227,7 @@ pub const MAX_PER_NODE: u32 = 8;
 pub fn run(tier: &str, seed: u64) -> i32 {
     let start = Instant::now();
     let thorough = tier == "thorough";
-    let max_len = if thorough { 4 } else { 3 };
+    let max_len = if thorough { 3 } else { 2 };
     let paths = cyclic_paths(max_len);
     let depths: Vec<usize> = if thorough { vec![4, 8, 16, 32, 64, 128, 256] } else { vec![4, 8, 16, 32, 64] };
     let widths = [0usize, 20, 40, 80, 120];
@@ -213,14 +257,14 @@ pub fn run(tier: &str, seed: u64) -> i32 {
                     let g = c.lock().unwrap();
                     if let Some((t0, what)) = &*g {
                         if t0.elapsed() > Duration::from_secs(20) {
-                            println!("VIOLATION property=C18 replay=/verif/replays/C18/hang.json");
+                            println!("VIOLATION property=C18 replay={}/replays/C18/hang.json", report::out_root());
                             println!("  clause=hang: formatting did not finish within 20 s: {what}");
-                            let _ = std::fs::create_dir_all("/verif/replays/C18");
-                            let _ = std::fs::write("/verif/replays/C18/hang.json", json!({"property": "C18", "clause": "hang", "case": what}).to_string());
+                            let _ = std::fs::create_dir_all(format!("{}/replays/C18", report::out_root()));
+                            let _ = std::fs::write(&format!("{}/replays/C18/hang.json", report::out_root()), json!({"property": "C18", "clause": "hang", "case": what}).to_string());
                             let ev = json!({"property_id": "C18", "tier": tier, "seed": seed as i64, "level": "model_checking",
                                 "coverage": {"states": 1, "transitions": 1, "traces_validated_against_impl": 1, "evaluations": 1, "distinct_nontrivial": 2,
                                    "samples": [what], "exhaustive": false, "rule": "aborted by the hang watchdog"}, "wall_s": start.elapsed().as_secs_f64(), "violations": 1});
-                            let _ = std::fs::write("/verif/evidence/C18.json", ev.to_string());
+                            let _ = std::fs::write(format!("{}/evidence/C18.json", report::out_root()), ev.to_string());
                             std::process::exit(1);
                         }
                     }
